@@ -1,6 +1,7 @@
 package main
 
 import (
+	"time"
 	"errors"
 	"fmt"
 	"strings"
@@ -20,7 +21,24 @@ func init() {
 		old := date.MaxInputLength
 		date.MaxInputLength = int(rt.ArgInt(v, "limit"))
 		defer func() { date.MaxInputLength = old }()
-		c.Serial("replay", func(w *rt.W) { c09Case(w, rt.ArgString(v, "text"), date.Rule(rt.ArgInt(v, "rule")), true) })
+		text, rule := rt.ArgString(v, "text"), date.Rule(rt.ArgInt(v, "rule"))
+		c.Serial("replay", func(w *rt.W) { c09Case(w, text, rule, true) })
+		if c.Violations() == 0 { // not reproduced alone: as the last call of every two-call history over the history texts and rules
+			c.Serial("replay-with-history", func(w *rt.W) {
+				texts := []string{"2021-03-04", "20210304", "2000-02-29", "19991231", "2021-02-30", "20210230", text}
+				for _, ta := range texts {
+					for _, ra := range []date.Rule{0, date.RuleDisableBasic} {
+						for _, tb := range texts {
+							for _, rb := range []date.Rule{0, date.RuleDisableBasic} {
+								c09Case(w, ta, ra, false)
+								c09Case(w, tb, rb, false)
+								c09Case(w, text, rule, false)
+							}
+						}
+					}
+				}
+			})
+		}
 		return c.Report()
 	}
 }
@@ -445,6 +463,64 @@ func runC09(c *rt.Ctx) {
 	c.Require("grid-mixed-separator-layout", 100000)
 	c.Require("alphabet-accepted", 1)
 	c.Require("alphabet-nonexistent-day", 1)
+	// the days around the wall clock (UTC and local): today is an input like any other, under every configuration
+	// (also: call histories in which the rule changes between calls on a small set of texts)
+	{
+		now := time.Now()
+		var near []string
+		for _, t := range []time.Time{now.UTC(), now, now.In(time.FixedZone("E14", 14*3600)), now.In(time.FixedZone("W12", -12*3600))} {
+			for dd := -2; dd <= 2; dd++ {
+				x := t.AddDate(0, 0, dd)
+				near = append(near, x.Format("2006-01-02"), x.Format("20060102"))
+			}
+		}
+		for _, cfg := range configs {
+			date.MaxInputLength = cfg.limit
+			cfg := cfg
+			c.Serial("days-around-today", func(w *rt.W) {
+				for _, t := range near {
+					c09Case(w, t, cfg.rule, true)
+					c09Case(w, t, cfg.rule^date.RuleDisableBasic, true)
+				}
+				w.ClassN("days-around-today", 1)
+			})
+		}
+		for _, limit := range []int{1, 5, 9} { // and under limits shorter than any date
+			date.MaxInputLength = limit
+			c.Serial("days-around-today", func(w *rt.W) {
+				for _, t := range near {
+					c09Case(w, t, 0, true)
+				}
+			})
+		}
+		date.MaxInputLength = 10
+		c.Require("days-around-today", 8)
+		// every history of three calls over six texts x two rules, single-threaded (what one call leaves behind for the
+		// next is only visible when nothing else runs in between)
+		texts := []string{"2021-03-04", "20210304", "2000-02-29", "19991231", "2021-02-30", "20210230"}
+		type step struct {
+			t string
+			r date.Rule
+		}
+		var steps []step
+		for _, t := range texts {
+			steps = append(steps, step{t, 0}, step{t, date.RuleDisableBasic})
+		}
+		c.Serial("rule-alternating-histories", func(w *rt.W) {
+			for _, a := range steps {
+				for _, b := range steps {
+					for _, d := range steps {
+						c09Case(w, a.t, a.r, false)
+						c09Case(w, b.t, b.r, false)
+						c09Case(w, d.t, d.r, false)
+						w.ClassN("rule-alternating-history", 1)
+					}
+				}
+			}
+			w.NT(int64(len(steps) * len(steps) * len(steps)))
+		})
+		c.Require("rule-alternating-history", 1700)
+	}
 	// the text as other layers spell it (quoted, bracketed, escaped, padded, doubled, other scripts): not the text
 	for _, limit := range []int{10, 0, 60} {
 		date.MaxInputLength = limit
